@@ -151,13 +151,8 @@ theorem outs_nums (v : CompactV s c) : (cOuts c).Pairwise (fun a b => a.num ≠ 
 
 /-! ### recency between the remaining files and the inputs -/
 
-theorem r0_newer_i0 (h : InvP s) (v : CompactV s c) {g fe : File} (hg : g ∈ cR0 s c)
-    (hfe : fe ∈ cI0 s c) : NewerF g fe := by
-  by_cases h0 : c.level = 0
-  · intro x hx y hy e
-    exact absurd e (v.r0_zero h0 g hg fe hfe x hx y hy)
-  · exact (v.r0_pos h0 g hg).newerF (h.files _ g (mem_cR0.mp hg).1)
-      (fun fe hfe => h.files _ fe (mem_cI0.mp hfe).1) fe hfe
+theorem r0_newer_i0 (v : CompactV s c) {g fe : File} (hg : g ∈ cR0 s c)
+    (hfe : fe ∈ cI0 s c) : NewerF g fe := v.r0_newer g hg fe hfe
 
 theorem r1_newer_inputs (h : InvP s) (v : CompactV s c) {g fe : File} (hg : g ∈ cR1 s c)
     (hfe : fe ∈ cI0 s c ++ cI1 s c) : NewerF g fe :=
@@ -171,7 +166,7 @@ theorem surv_newer_input (h : InvP s) (v : CompactV s c) {i : Nat} {g fe : File}
   rcases inputs_level hfe with ⟨h0, h1⟩ | ⟨_, h1⟩
   · by_cases e : i = c.level
     · subst e
-      exact r0_newer_i0 h v (mem_cR0.mpr ⟨hg1, hg2 rfl⟩) h0
+      exact r0_newer_i0 v (mem_cR0.mpr ⟨hg1, hg2 rfl⟩) h0
     · exact h.order i c.level g fe hg1 h1 (Or.inl (by omega))
   · exact h.order i (c.level + 1) g fe hg1 h1 (Or.inl hi)
 
@@ -181,8 +176,7 @@ theorem cL'_levelsP (h : InvP s) (v : CompactV s c) : LevelsP (cL' s c) := by
   apply hL2.foldAdd v.lvl (by omega) (fun o ho => out_ok h v ho) (outs_nums v)
   · intro o ho j g hg
     obtain ⟨p, hp, rfl⟩ := mem_cOuts.mp ho
-    have := v.outs_fresh p hp j g ((mem_lv_cL2 j g).mp hg).1
-    simp only [mkFile_num]; omega
+    exact v.outs_fresh p hp j g ((mem_lv_cL2 j g).mp hg).1
   · exact outs_chain h v
   · intro o ho g hg
     obtain ⟨hg1, _, hg3⟩ := (mem_lv_cL2 _ g).mp hg
